@@ -10,7 +10,7 @@ FRAGMENTS = [
     "#c", "`", "g`*`", "@a`b`", "p'", "pf'", "pr\"", "&&", "||", ">&", "|", "&", ";", ":", ",", ".", "...", "=", "==", ":=", "->", "**", "@",
     "if ", "else", "def f(", "class ", "lambda ", "for x in ", "match x:\n case ", "import ", "from . import ", "try:\n", "except*", "type X = ",
     "x", "a.b", "1", "0x", "1e", "1_", "0_7", "1.5j", "b'é'", "'\\N{x}'", "u'", "await ", "yield ", "not ", "in ", "is ", "echo", "ls -la", "2>&1", "del ", "return ",
-    "\x0c", "\t", "\x00", "\ufeff", "€", "é", "\u2028", "\x1b", "󠄀",
+    "\x0c", "\t", "\x00", "\ufeff", "€", "é", "\u2028", "\x1b", "󠄀", "\ud800", "'\udfff'", "b'\udc80'",
 ]
 
 ALPHA = st.one_of(
@@ -18,7 +18,7 @@ ALPHA = st.one_of(
     st.characters(min_codepoint=32, max_codepoint=126),
     st.characters(min_codepoint=0, max_codepoint=31),
     st.characters(blacklist_categories=["Cs"]),
-    st.sampled_from(["\r", "\x0c", "\x00", "\ufeff", "\u2028", "\u2029", "\U0001F600", "\u0301", "\x85"]),
+    st.sampled_from(["\r", "\x0c", "\x00", "\ufeff", "\u2028", "\u2029", "\U0001F600", "\u0301", "\x85", "\ud800", "\udfff"]),
 )
 
 soup = st.lists(st.one_of(st.sampled_from(FRAGMENTS), st.sampled_from(FRAGMENTS), st.text(ALPHA, min_size=1, max_size=4)), min_size=1, max_size=14).map("".join)
